@@ -129,7 +129,7 @@ def main():
             na.append(dict(property_id=i, reason=PENDING.get(i, "not claimed yet: its check is still being built (see DESIGN.md section 7 for the order of work)")))
     m = dict(version=1, setup_cmd="./sv setup",
              hooks=dict(guard="stylua_verif", enable='RUSTFLAGS="--cfg stylua_verif" (set by svlib/core.py for every cargo build of the harness)',
-                        baseline_off_cmd="cd /repo && cargo test --workspace --no-fail-fast --offline", source_commits=["c346a05"], add_only=True),
+                        baseline_off_cmd="cd /repo && cargo test --workspace --no-fail-fast --offline", source_commits=["c346a05", "29928c2"], add_only=True),
              engines=[dict(name="sv", path="/verif/sv", serves_properties=sorted(CHECKS), kind_free_text="Coq 8.16 proofs (coq/), extracted OCaml judges (ml/), Rust harness (harness/), Python runner (svlib/)")],
              checks=checks, not_applicable=na,
              notes="Repairs of genuine defects are `fix:` commits in /repo, listed as fixed in known_findings.jsonl; see DESIGN.md.")
